@@ -1,6 +1,7 @@
 package main
 
 import (
+	"flag"
 	"fmt"
 	"os"
 )
@@ -21,6 +22,10 @@ func main() {
 		replayMain()
 	case "dettest":
 		dettestMain()
+	case "simtest":
+		fl := flag.NewFlagSet("simtest", flag.ExitOnError)
+		workerFlags(fl)
+		simtestMain()
 	case "build":
 		o := BuildPath(os.Args[2])
 		fmt.Println(o.Text(), o.PanicAt)
